@@ -200,6 +200,7 @@ def fam_db(case):
                     A.v(f'{fn.__name__}:negative-accepted', f'{fn.__name__}({cont(mixed)!r}) -> {y!r}, ValueError required')
     # homomorphism against all 180 positives: array calls and scalar calls
     st0, dball = call(db, allpos)
+    dby = [call(db, y) for y in ALLPOS]                  # scalar db(y), once per y
     for x in xs:
         st1, dx = call(db, x)
         st2, dxy = call(db, x * allpos)
@@ -213,7 +214,7 @@ def fam_db(case):
             A.v('db:db(x*y)!=db(x)+db(y)', f'x={x!r} y={ALLPOS[j]!r}: db(x*y)={dxy[j]!r}, db(x)+db(y)={dx + dball[j]!r} (array call)')
         for j, y in enumerate(ALLPOS):
             s, dxy1 = call(db, x * y)
-            s3, dy = call(db, y)
+            s3, dy = dby[j]
             if s == 'exc' or s3 == 'exc':
                 A.v('db:raises', f'db({x * y!r}) or db({y!r}) raised')
                 continue
@@ -894,9 +895,12 @@ def run(ctx):
         r = ctx.run_case('regress', case_fn, c)
         _merge(ctx, [r.get('payload')], nt_all, out_all)
 
+    per_part = ctx.extra.setdefault('items_per_part', {})
+
     def part(name, cases, horizon=120):
         payloads = ctx.pmap(name, case_fn, cases, horizon=horizon, chunk=1, recheck=2)
         _merge(ctx, payloads, nt_all, out_all)
+        per_part[name] = sum(p['items'] for p in payloads if p)
 
     # -- conversions
     part('db.decades', [('db', e) for e in sorted(DECADES, key=lambda e: (abs(e), e < 0))])
